@@ -4,6 +4,7 @@ import (
 	"fmt"
 	"math/rand/v2"
 	"os"
+	"strings"
 	"time"
 
 	"github.com/google/uuid"
@@ -81,6 +82,9 @@ var vamanaConfigs = []vamanaConfig{
 	{vecConfig{"dot+pq", models.DistanceDot, 6, "pq", "", ""}, 75, 64, 1.5},
 	{vecConfig{"cosine+pq", models.DistanceCosine, 8, "pq", "", ""}, 30, 32, 1.2},
 	{vecConfig{"euclidean-dim1", models.DistanceEuclidean, 1, "none", "", ""}, 25, 32, 1.1},
+	// the vector lives under a nested property path (set, changed and removed through the parent key)
+	{vecConfig{"euclidean-nested", models.DistanceEuclidean, 4, "none", "", "emb.v"}, 50, 32, 1.2},
+	{vecConfig{"cosine-nested+bin-learned", models.DistanceCosine, 10, "bin-learned", models.DistanceHamming, "meta.deep.vec"}, 40, 32, 1.2},
 }
 
 func vamanaCases(prop string, tier string, seed uint64) []fw.Case {
@@ -295,7 +299,31 @@ func runVamana(c fw.Case, env *fw.Env, prop string) *fw.CaseResult {
 	vc := vamanaConfigs[c.Int("config", 0)]
 	style := c.Str("style", "mixed")
 	schema := vectorSchema("vamana", vc.vecConfig, vc.SearchSize, vc.Degree, vc.Alpha)
-	sv := schema["v"]
+	vp := vc.prop()
+	sv := schema[vp]
+	// documents that set / remove the vector field through its top-level key (the update API merges shallowly)
+	vecDoc := func(v any) model.Doc {
+		segs := strings.Split(vp, ".")
+		for i := len(segs) - 1; i > 0; i-- {
+			v = map[string]any{segs[i]: v}
+		}
+		return model.Doc{segs[0]: v}
+	}
+	dropVec := func(d model.Doc) {
+		segs := strings.Split(vp, ".")
+		cur := map[string]any(d)
+		for i, sg := range segs {
+			if i == len(segs)-1 {
+				delete(cur, sg)
+				return
+			}
+			next, ok := cur[sg].(map[string]any)
+			if !ok {
+				return
+			}
+			cur = next
+		}
+	}
 	g := gen.New(c.Seed, schema)
 	g.PresentProb = 0.85
 	if style == "line" {
@@ -331,7 +359,7 @@ func runVamana(c fw.Case, env *fw.Env, prop string) *fw.CaseResult {
 	if prop == "C10" {
 		nSearch = 6
 	}
-	tw := newTrainWatch("v", sv)
+	tw := newTrainWatch(vp, sv)
 	for step := 0; step < steps; step++ {
 		var op gen.Op
 		switch {
@@ -346,18 +374,18 @@ func runVamana(c fw.Case, env *fw.Env, prop string) *fw.CaseResult {
 			g.PresentProb = keep
 		case insertOnly:
 			op = gen.Op{Kind: gen.OpInsert, Tag: "insert-only"}
-			room := regimeCap - countWithVector(m, "v", vc.Dim)
+			room := regimeCap - countWithVector(m, vp, vc.Dim)
 			n := min(room, 1+g.R.IntN(12))
 			for i := 0; i < n; i++ {
 				d := g.Doc()
 				op.Points = append(op.Points, model.Point{Id: g.NewId(), Doc: d})
 			}
 			// never exceed the regime: drop vectors from the surplus
-			cnt := countWithVector(m, "v", vc.Dim)
+			cnt := countWithVector(m, vp, vc.Dim)
 			for i := range op.Points {
-				if _, ok := op.Points[i].Doc["v"]; ok {
+				if _, ok := model.AsVector(op.Points[i].Doc, vp); ok {
 					if cnt >= regimeCap {
-						delete(op.Points[i].Doc, "v")
+						dropVec(op.Points[i].Doc)
 					} else {
 						cnt++
 					}
@@ -369,15 +397,16 @@ func runVamana(c fw.Case, env *fw.Env, prop string) *fw.CaseResult {
 				op.Points = append(op.Points, model.Point{Id: g.NewId(), Doc: g.Doc()})
 			}
 		case style == "neighbourhoods" && step%3 == 2 && len(m.Docs) > 10:
-			op = neighbourhoodOp(g, s, m, schema, sv)
+			op = neighbourhoodOp(g, s, m, schema, vp, sv)
 		case step%5 == 4 && len(m.Docs) > 3:
 			// remove and re-add the vector inside one update batch
 			op = gen.Op{Kind: gen.OpUpdate, Tag: "remove-and-readd-vector"}
 			ids := m.SortedIds()
 			for i := 0; i < min(6, len(ids)); i++ {
 				id := ids[g.R.IntN(len(ids))]
-				op.Points = append(op.Points, model.Point{Id: id, Doc: model.Doc{"v": model.DeleteValue}})
-				op.Points = append(op.Points, model.Point{Id: id, Doc: model.Doc{"v": g.Vector(vc.Dim, vc.Metric)}})
+				rm := model.Doc{strings.Split(vp, ".")[0]: model.DeleteValue}
+				op.Points = append(op.Points, model.Point{Id: id, Doc: rm})
+				op.Points = append(op.Points, model.Point{Id: id, Doc: vecDoc(g.Vector(vc.Dim, vc.Metric))})
 			}
 		default:
 			op = h.Next(m)
@@ -402,7 +431,7 @@ func runVamana(c fw.Case, env *fw.Env, prop string) *fw.CaseResult {
 		}
 		digest := dump.Digest()
 		if prop == "C10" {
-			probs, nodes, dups := graphInvariants(dump, "v", sv, m)
+			probs, nodes, dups := graphInvariants(dump, vp, sv, m)
 			res.Eval(mutated && nodes >= 20, digest)
 			res.Stat("dumps", 1)
 			res.Stat("duplicate_edges_seen", int64(dups))
@@ -417,9 +446,9 @@ func runVamana(c fw.Case, env *fw.Env, prop string) *fw.CaseResult {
 				res.Sample(map[string]any{"config": c.Name, "nodes": nodes, "live": len(m.Docs), "last_op": op.Tag})
 			}
 		}
-		o := newVecOracle(dump, "v", sv)
+		o := newVecOracle(dump, vp, sv)
 		tw.step(res, prop, mBefore, m, op, true, o.trained(), step)
-		nVec := countWithVector(m, "v", vc.Dim)
+		nVec := countWithVector(m, vp, vc.Dim)
 		for qi := 0; qi < nSearch; qi++ {
 			query := g.Vector(vc.Dim, vc.Metric)
 			searchSize := []int{25, 30, 50, 75, 75}[g.R.IntN(5)]
@@ -450,7 +479,7 @@ func runVamana(c fw.Case, env *fw.Env, prop string) *fw.CaseResult {
 				fset, _ = m.Select(schema, fq)
 				fdesc = fmt.Sprintf("_id filter with %d members", len(fset))
 			}
-			req := models.SearchRequest{Query: models.Query{Property: "v", VectorVamana: &models.SearchVectorVamanaOptions{Vector: query, Operator: models.OperatorNear, SearchSize: searchSize, Limit: limit, Filter: filter, Weight: w}}, Limit: 100}
+			req := models.SearchRequest{Query: models.Query{Property: vp, VectorVamana: &models.SearchVectorVamanaOptions{Vector: query, Operator: models.OperatorNear, SearchSize: searchSize, Limit: limit, Filter: filter, Weight: w}}, Limit: 100}
 			if req.Validate() != nil || req.Query.ValidateSchema(schema) != nil {
 				continue
 			}
@@ -522,13 +551,13 @@ func countWithVector(m *model.Model, field string, dim int) int {
 
 // neighbourhoodOp deletes a node's whole graph neighbourhood at once (read
 // from the dump), which forces the pruning and "save" paths.
-func neighbourhoodOp(g *gen.G, s *sx.Sx, m *model.Model, schema models.IndexSchema, sv models.IndexSchemaValue) gen.Op {
+func neighbourhoodOp(g *gen.G, s *sx.Sx, m *model.Model, schema models.IndexSchema, vp string, sv models.IndexSchemaValue) gen.Op {
 	op := gen.Op{Kind: gen.OpDelete, Tag: "delete-neighbourhood"}
 	dump, err := sx.DumpStore(s.Shard.VerifDiskStore(), schema)
 	if err != nil {
 		return op
 	}
-	gv := dump.Graph(indexBucket("v", sv))
+	gv := dump.Graph(indexBucket(vp, sv))
 	pv := dump.Points()
 	var nodes []uint64
 	for n := range gv.Edges {
